@@ -745,11 +745,31 @@ theorem safe_primCall (name : String) (args : List Val) : Safe (do
   · set_same
   · exact Step.refl s
 
+/-- the `substitute` arm of `builtin` (C16): reads a lazy object, may allocate in the data heap. -/
+theorem safe_substituteLazy (id : Nat) : Safe (do
+    let s ← get
+    match s.lazies[id]? with
+    | none => err
+    | some lz =>
+      if lz.isValue then pure (lz.value.getD .nil)
+      else
+        let (v, h) := quoteE lz.e s.heap
+        set { s with heap := h }
+        pure v : M Val) := by
+  apply safe_get_bind; intro s
+  split
+  · exact Step.refl s
+  · split
+    · exact Step.refl s
+    · split
+      set_same
+
 theorem safe_builtin_succ (n : Nat) (ih : AllSafe n) (name : String) (args : List Val) :
     Safe (builtin (n+1) name args) := by
   unfold ZygoVerif.VM.builtin
   repeat' (first
     | with_reducible exact safe_allocRet _
+    | exact safe_substituteLazy _
     | exact safe_primCall _ _
     | (safe_ih ih; done)
     | split
@@ -760,7 +780,7 @@ already forced lazy object whose scope stack is empty. -/
 theorem step_applyWrap (fo : FnObj) (args : List Val) (s : St) (i : Nat) :
     Step s (args.foldl (fun (p : St × Nat) v =>
       if fo.isLazyCallArg p.2 then
-        ({ p.1 with lazies := p.1.lazies ++ [({ e := .nilLit, stack := [], curfunc := 0, value := some v } : LazyObj)],
+        ({ p.1 with lazies := p.1.lazies ++ [({ e := .nilLit, stack := [], curfunc := 0, value := some v, isValue := true } : LazyObj)],
                     data := some (.lazy p.1.lazies.length) :: p.1.data }, p.2 + 1)
       else ({ p.1 with data := some v :: p.1.data }, p.2 + 1)) (s, i)).1 := by
   induction args generalizing s i with
@@ -769,7 +789,7 @@ theorem step_applyWrap (fo : FnObj) (args : List Val) (s : St) (i : Nat) :
     simp only [List.foldl_cons]
     split
     · refine Step.trans ?_ (ih _ _)
-      exact Step.of_addLazy { e := .nilLit, stack := [], curfunc := 0, value := some v } rfl rfl rfl rfl rfl
+      exact Step.of_addLazy { e := .nilLit, stack := [], curfunc := 0, value := some v, isValue := true } rfl rfl rfl rfl rfl
         (fun _ id hid => by simp [idsOf] at hid)
     · refine Step.trans ?_ (ih _ _)
       exact Step.of_same rfl rfl rfl rfl rfl
